@@ -281,11 +281,14 @@ def enum_pairs(seed):
         for (na, a), (nb, b) in itertools.combinations(objs, 2):
             cases += 1
             try:
-                equal = a == b and b == a
+                ab, ba = bool(a == b), bool(b == a)
             except Exception as e:
                 bad({"kind": kind, "a": na, "b": nb}, f"{na} == {nb} raised {type(e).__name__}: {e}")
                 continue
-            if not equal:
+            if ab != ba:
+                bad({"kind": kind, "a": na, "b": nb}, f"{na} == {nb} is {ab} but {nb} == {na} is {ba}: which of the two a cache treats as the other depends on the order they arrive in")
+                continue
+            if not ab:
                 continue
             if hash(a) != hash(b):
                 bad({"kind": kind, "a": na, "b": nb}, f"{na} == {nb} but their hashes differ")
@@ -337,8 +340,17 @@ def enum_pairs(seed):
     compare("use_restriction", use_restr, fake_use, lambda r, p: r.match(p))
     # dependency sets (boolean trees of atoms): the same members in another order or written twice
     from pkgcore.ebuild.conditionals import DepSet
-    dsets = [(f"DepSet({t!r})", DepSet.parse(t, atom)) for t in ("a/b a/c", "a/c a/b", "a/b a/b a/c", "a/b", "|| ( a/b a/c )", "|| ( a/c a/b )", "x? ( a/b ) a/c", "a/c x? ( a/b )")]
-    compare("depset", dsets, [None], lambda r, p: None)   # dependency sets are not matched against packages; equality and hash only
+    dsets = [(f"DepSet({t!r})", DepSet.parse(t, atom)) for t in ("a/b a/c", "a/c a/b", "a/b a/b a/c", "a/b", "|| ( a/b a/c )", "|| ( a/c a/b )", "x? ( a/b ) a/c", "a/c x? ( a/b )",
+                                                                 "a/b a/b", "a/c a/c", "a/b a/c a/d", "a/b a/b a/d", "a/d a/b a/b", "a/b a/c a/c", "|| ( a/b a/c ) || ( a/b a/c )", "|| ( a/b a/c ) a/b")]
+    # dependency sets are not matched against packages: equal ones must have the same members
+    compare("depset", dsets, [None], lambda r, p: sorted(set(map(str, r.restrictions))))
+    from pkgcore.restrictions.required_use import find_constraint_satisfaction
+    ruse = [(f"REQUIRED_USE({t!r})", DepSet.parse(t, values.ContainmentMatch, operators={"||": boolean.OrRestriction, "": boolean.AndRestriction, "^^": boolean.JustOneRestriction, "??": boolean.AtMostOneOfRestriction},
+                                                    element_func=lambda d: values.ContainmentMatch(d[1:], negate=True) if d[0] == "!" else values.ContainmentMatch(d), attr="REQUIRED_USE"))
+            for t in ("a b", "b a", "a a", "b b", "a a b", "a b b", "|| ( a b )", "|| ( b a )", "|| ( a b ) a", "a || ( a b )", "^^ ( a b )", "^^ ( a b ) ^^ ( a b )", "a? ( b )", "a? ( b ) a? ( b )", "a? ( b ) b")]
+    for n_, r_ in ruse:     # the probe itself must work on every one of them (an exception on both sides would read as agreement)
+        list(find_constraint_satisfaction(r_, {"a", "b"}))
+    compare("required_use", ruse, [None], lambda r, p: sorted(tuple(sorted(k for k, v in sol.items() if v)) for sol in find_constraint_satisfaction(r, {"a", "b"})))
     # the restriction trees atoms and query parsers build from version restrictions
     trees = [(f"And(PackageRestriction(fullver, {n}))", boolean.AndRestriction(packages.PackageRestriction("package", values.StrExactMatch("p")), vm)) for n, vm in vms[::3]]
     compare("tree", trees, pkgs, lambda r, p: r.match(p))
